@@ -246,6 +246,31 @@ Theorem C13_derived_header_stays_separate :
 Proof. exact derived_header_stays_separate. Qed.
 Print Assumptions C13_derived_header_stays_separate.
 
+(* the well-formedness hypothesis is met by every parsed header: building the
+   objects of a header from_lines returned (one list object shared by the
+   contigs record and the coordinate sort order) gives a well-formed header
+   object that reads back as that header ... *)
+Theorem C13_parsed_header_allocates :
+  forall (C : Type) (registry : list (scheme C)) lines m lg l h hp hp' sh,
+    header_from_lines registry lines m lg = (l, Ok h) ->
+    alloc_header hp (hrecs h) None = (hp', sh) ->
+    wf hp' sh /\ view hp' sh = hrecs h.
+Proof. intros C registry. exact (parsed_header_allocates registry). Qed.
+Print Assumptions C13_parsed_header_allocates.
+
+(* ... so: a header derived (deepcopy) from a parsed header reads as the parsed
+   header, and no history of mutations of either changes what the other reads as *)
+Theorem C13_parsed_derived_independent :
+  forall (C : Type) (registry : list (scheme C)) lines m lg l h hp hp0 src hp1 cp,
+    header_from_lines registry lines m lg = (l, Ok h) ->
+    alloc_header hp (hrecs h) None = (hp0, src) ->
+    deepcopy hp0 [] src = (hp1, cp) ->
+    view hp1 cp = hrecs h /\
+    (forall ms hp2 cp', apply_muts hp1 cp ms = (hp2, cp') -> view hp2 src = hrecs h) /\
+    (forall ms hp2 src', apply_muts hp1 src ms = (hp2, src') -> view hp2 cp = hrecs h).
+Proof. intros C registry. exact (parsed_derived_independent registry). Qed.
+Print Assumptions C13_parsed_derived_independent.
+
 (* ---------- non-vacuity ---------- *)
 Definition l_version : str := [35;118;101;114;115;105;111;110;32;103;100;99;45;49;46;48;46;48]%N. (* #version gdc-1.0.0 *)
 Definition l_contigs : str := [35;99;111;110;116;105;103;115;32;99;104;114;49;44;99;104;114;50]%N. (* #contigs chr1,chr2 *)
